@@ -132,6 +132,58 @@ func Asc(objectType, freqIndex, channels int) []byte {
 	return []byte{byte(objectType<<3) | byte(freqIndex>>1), byte(freqIndex<<7) | byte(channels<<3)}
 }
 
+// AscVariant is the AudioSpecificConfig of "ash" item variant v: variant 0 is the stream's own
+// configuration (Codecs), every other variant differs from it in sampling-frequency index and channel
+// configuration (object type kept), so that a mid-stream configuration change is observable in the sequence
+// header, in the ADTS headers a TS remuxer writes and in an SDP.
+func AscVariant(c Codecs, v int) []byte {
+	if v == 0 {
+		return Asc(c.AscObj, c.AscFreq, c.AscChan)
+	}
+	if v < 0 {
+		v = -v
+	}
+	freqs := []int{3, 4, 6, 8, 11}
+	f := freqs[v%len(freqs)]
+	if f == c.AscFreq {
+		f = freqs[(v+1)%len(freqs)]
+	}
+	ch := 1 + (c.AscChan+v-1)%2 // 1 or 2
+	if ch == c.AscChan {
+		ch = 3 - ch
+	}
+	return Asc(c.AscObj, f, ch)
+}
+
+// FitPayloadLen resizes the last NAL unit of a video item / the frame of an audio item so that
+// len(it.Payload(c)) == target.  It reports false (item untouched) when the target is out of reach.
+func FitPayloadLen(it *Item, c Codecs, target int) bool {
+	cur := len(it.Payload(c))
+	d := target - cur
+	switch it.Kind {
+	case "video":
+		if len(it.Nals) == 0 {
+			return false
+		}
+		n := &it.Nals[len(it.Nals)-1]
+		if n.Len+d < 0 {
+			return false
+		}
+		n.Len += d
+	case "audio":
+		if it.ALen+d < 1 {
+			return false
+		}
+		it.ALen += d
+	default:
+		return false
+	}
+	if len(it.Payload(c)) != target {
+		panic("gen: FitPayloadLen missed its target")
+	}
+	return true
+}
+
 // ---- stream items ------------------------------------------------------------
 
 // Codecs of a stream.
@@ -257,7 +309,7 @@ func (it Item) Payload(c Codecs) []byte {
 		}
 		return b
 	case "ash":
-		return append([]byte{0xAF, 0}, Asc(c.AscObj, c.AscFreq, c.AscChan)...)
+		return append([]byte{0xAF, 0}, AscVariant(c, it.Variant)...)
 	case "audio":
 		body := Bytes(it.ASeed, it.ALen)
 		if len(body) >= 4 {
@@ -294,6 +346,24 @@ type StreamOpts struct {
 	StartTs     *rapid.Generator[uint32]
 	MultiNal    bool // several NAL units per frame incl. in-band parameter sets / SEI / AUD
 	Cts         bool // non-zero composition offsets
+
+	// ---- added after audit 1: every option below is off by default and draws nothing while off, so
+	// callers that do not set it get exactly the streams they got before ----
+
+	// MsgSizeEdges: a drawn share of the audio AND video messages is resized so that the length of the
+	// whole message payload (not of a NAL unit) is e-1, e or e+1 for one of these values.
+	MsgSizeEdges []int
+	// MidMeta: metadata messages inside the stream (with / without @setDataFrame, repeated or new
+	// content, timestamp 0 or current).
+	MidMeta bool
+	// MidHeaders: sequence headers re-sent inside the stream, also mid-GOP: the video sequence header with
+	// unchanged content, the AAC sequence header unchanged or (AscChurn) with another configuration.
+	MidHeaders bool
+	// AscChurn: the AAC configuration may change mid-stream (Item.Variant != 0 on an "ash" item).
+	AscChurn bool
+	// TsBack: backward steps of the video and/or audio clock, a clock reset to 0, and start values right
+	// below 2^32 so that the 32-bit timestamp wraps inside the stream.
+	TsBack bool
 }
 
 // GenCodecs draws the codec configuration.
@@ -393,6 +463,9 @@ func GenItems(t *rapid.T, c Codecs, o StreamOpts, serialBase uint32) []Item {
 	ts := uint32(0)
 	if o.StartTs != nil {
 		ts = o.StartTs.Draw(t, "startTs")
+	} else if o.TsBack && rapid.IntRange(0, 3).Draw(t, "startNearWrap") == 0 {
+		// right below 2^32 (the clock wraps inside the stream), or right below the 24-bit limit
+		ts = rapid.SampledFrom([]uint32{0xFFFFFFFF, 0xFFFFFFF0, 0xFFFFFF00, 0xFFFFFFD8, 0xFFFFFE, 0xFFFFD8}).Draw(t, "startTsWrap")
 	} else if o.TsJumps {
 		ts = rapid.OneOf(rapid.Just(uint32(0)), rapid.Uint32Range(0, 100000), rapid.SampledFrom([]uint32{0xFFFFF0, 0xFFFFFF, 0x1000000, 0x7FFFFF00})).Draw(t, "startTs")
 	} else {
@@ -427,6 +500,39 @@ func GenItems(t *rapid.T, c Codecs, o StreamOpts, serialBase uint32) []Item {
 	vStep := rapid.SampledFrom([]uint32{40, 33, 20, 1, 0, 100}).Draw(t, "vStep")
 	aStep := rapid.SampledFrom([]uint32{23, 21, 10, 1, 64}).Draw(t, "aStep")
 	aTs := ts
+	// fitEdge resizes a drawn share of the messages to a payload length on a MsgSizeEdges value (+-1)
+	fitEdge := func(it *Item) {
+		if len(o.MsgSizeEdges) == 0 || rapid.IntRange(0, 3).Draw(t, "msgEdge") != 0 {
+			return
+		}
+		e := rapid.SampledFrom(o.MsgSizeEdges).Draw(t, "msgEdgeAt") + rapid.IntRange(-1, 1).Draw(t, "msgEdgeDelta")
+		FitPayloadLen(it, c, e)
+	}
+	ascVariant := 0
+	// midItems sprinkles metadata / re-sent sequence headers between two media messages
+	midItems := func(now uint32) {
+		if o.MidMeta && rapid.IntRange(0, 9).Draw(t, "midMeta") == 0 {
+			mv := variant
+			if rapid.Bool().Draw(t, "midMetaNew") {
+				mv = variant + 3 + rapid.IntRange(0, 5).Draw(t, "midMetaVariant")
+			}
+			mts := now
+			if rapid.IntRange(0, 2).Draw(t, "midMetaTs0") == 0 {
+				mts = 0
+			}
+			items = append(items, Item{Kind: "meta", Ts: mts, Variant: mv, Sdf: rapid.Bool().Draw(t, "midMetaSdf")})
+		}
+		if o.MidHeaders && rapid.IntRange(0, 11).Draw(t, "midHdr") == 0 {
+			if c.Audio == "aac" && (c.Video == "" || rapid.Bool().Draw(t, "midHdrAudio")) {
+				if o.AscChurn && rapid.Bool().Draw(t, "ascChurn") {
+					ascVariant = 1 + (ascVariant+rapid.IntRange(0, 1).Draw(t, "ascNext"))%3
+				}
+				items = append(items, Item{Kind: "ash", Ts: now, Variant: ascVariant})
+			} else if c.Video != "" {
+				items = append(items, Item{Kind: "vsh", Ts: now, Variant: variant})
+			}
+		}
+	}
 	emitAudioUpTo := func(limit uint32, force int) {
 		if c.Audio == "" {
 			return
@@ -438,8 +544,14 @@ func GenItems(t *rapid.T, c Codecs, o StreamOpts, serialBase uint32) []Item {
 				l = rapid.IntRange(400, 6000).Draw(t, "alenBig")
 			}
 			serial++
-			items = append(items, Item{Kind: "audio", Ts: aTs, ALen: l, ASeed: serial})
+			it := Item{Kind: "audio", Ts: aTs, ALen: l, ASeed: serial}
+			fitEdge(&it)
+			items = append(items, it)
+			midItems(aTs)
 			aTs += aStep
+			if o.TsBack && rapid.IntRange(0, 11).Draw(t, "aBack") == 0 {
+				aTs -= rapid.SampledFrom([]uint32{1, 23, 500, 2 * aStep}).Draw(t, "aBackBy")
+			}
 			n++
 		}
 	}
@@ -487,9 +599,25 @@ func GenItems(t *rapid.T, c Codecs, o StreamOpts, serialBase uint32) []Item {
 			if o.Cts && rapid.IntRange(0, 2).Draw(t, "hasCts") == 0 {
 				cts = rapid.SampledFrom([]uint32{40, 80, 1, 33, 120}).Draw(t, "cts")
 			}
-			items = append(items, Item{Kind: "video", Ts: ts, Cts: cts, Key: key, Nals: nals, Variant: int(serial)})
+			vit := Item{Kind: "video", Ts: ts, Cts: cts, Key: key, Nals: nals, Variant: int(serial)}
+			fitEdge(&vit)
+			items = append(items, vit)
+			midItems(ts)
 			emitAudioUpTo(ts, 0)
 			ts += vStep
+			if o.TsBack && rapid.IntRange(0, 9).Draw(t, "vBack") == 0 {
+				switch rapid.IntRange(0, 3).Draw(t, "vBackKind") {
+				case 0:
+					ts -= vStep // the next frame repeats this frame's timestamp
+				case 1:
+					ts -= vStep + rapid.SampledFrom([]uint32{1, 40, 1000, 70000}).Draw(t, "vBackBy")
+				case 2:
+					ts = 0 // encoder restart
+				default:
+					ts -= vStep + 1
+					aTs = ts // both clocks step back together
+				}
+			}
 			if o.TsJumps && rapid.IntRange(0, 25).Draw(t, "jump") == 0 {
 				ts += rapid.SampledFrom([]uint32{1000, 20000, 0xFFFFFF, 0x1000000}).Draw(t, "jumpBy")
 				if rapid.Bool().Draw(t, "audioFollows") {
